@@ -18,6 +18,13 @@
 (*                     shadow outer names, are visible in their own and    *)
 (*                     each other's right-hand sides; duplicates are an    *)
 (*                     error; a nested block has its own contributions     *)
+(*   let x = t that u   (anywhere, vocabulary "blocks") contributes x to    *)
+(*                     the NEAREST enclosing begin..end: candidates are    *)
+(*                     collected through every term former but not into a  *)
+(*                     nested block or an import boundary; x is visible    *)
+(*                     block-wide; t is resolved in the BLOCK's environment *)
+(*                     (the binding moves there), u stays where it is;     *)
+(*                     without an enclosing block it is an error           *)
 (*   import boundary   the environment is reset to empty                   *)
 (* Model-level theorems: renaming any binder (and the occurrences Res      *)
 (* assigns to it) to a fresh name leaves Res unchanged (the rule set is a  *)
@@ -25,30 +32,37 @@
 (* binder outside it.                                                      *)
 (***************************************************************************)
 EXTENDS Integers, Sequences, FiniteSets, TLC, Json
-CONSTANTS MaxLen, CheckAlpha
+CONSTANTS MaxLen, CheckAlpha, Vocab      \* Vocab: "full" (all lexical formers, compact blocks) | "blocks" (general `that`)
 
 Names == {"a", "b"}
 Fresh == "z"
 VARIABLES out, todo
 vars == <<out, todo>>
 Arity(t) == CASE t.k \in {"var", "unit"} -> 0
-              [] t.k \in {"fn", "fnp", "fna", "fix", "imp", "blockp"} -> 1
-              [] t.k \in {"do", "let", "letp", "pair"} -> 2
+              [] t.k \in {"fn", "fnp", "fna", "fix", "imp", "blockp", "blk", "pthat"} -> 1
+              [] t.k \in {"do", "let", "letp", "pair", "lthat"} -> 2
               [] t.k \in {"match", "block"} -> 3
 Init == out = << >> /\ todo = 1
 Emit(t) == out' = Append(out, t) /\ todo' = todo - 1 + Arity(t)
+GenFull == \/ \E n \in Names : Emit([k |-> "var", n |-> n])
+           \/ Emit([k |-> "unit"])
+           \/ Emit([k |-> "pair"])
+           \/ Emit([k |-> "imp"])
+           \/ \E n \in Names : \/ Emit([k |-> "fn", n1 |-> n]) \/ Emit([k |-> "fix", n1 |-> n])
+                               \/ Emit([k |-> "do", n1 |-> n]) \/ Emit([k |-> "let", n1 |-> n])
+                               \/ Emit([k |-> "blockp", n1 |-> n])
+           \/ \E n \in Names, m \in Names :
+                \/ Emit([k |-> "fnp", n1 |-> n, n2 |-> m]) \/ Emit([k |-> "fna", n1 |-> n, n2 |-> m])
+                \/ Emit([k |-> "letp", n1 |-> n, n2 |-> m])
+                \/ Emit([k |-> "match", n1 |-> n, n2 |-> m]) \/ Emit([k |-> "block", n1 |-> n, n2 |-> m])
+GenBlocks == \/ \E n \in Names : Emit([k |-> "var", n |-> n])
+             \/ Emit([k |-> "unit"])
+             \/ Emit([k |-> "imp"])
+             \/ Emit([k |-> "blk"])
+             \/ \E n \in Names : \/ Emit([k |-> "fn", n1 |-> n]) \/ Emit([k |-> "let", n1 |-> n])
+                                 \/ Emit([k |-> "lthat", n1 |-> n]) \/ Emit([k |-> "pthat", n1 |-> n])
 Gen == /\ todo > 0 /\ Len(out) + todo <= MaxLen
-       /\ \/ \E n \in Names : Emit([k |-> "var", n |-> n])
-          \/ Emit([k |-> "unit"])
-          \/ Emit([k |-> "pair"])
-          \/ Emit([k |-> "imp"])
-          \/ \E n \in Names : \/ Emit([k |-> "fn", n1 |-> n]) \/ Emit([k |-> "fix", n1 |-> n])
-                              \/ Emit([k |-> "do", n1 |-> n]) \/ Emit([k |-> "let", n1 |-> n])
-                              \/ Emit([k |-> "blockp", n1 |-> n])
-          \/ \E n \in Names, m \in Names :
-               \/ Emit([k |-> "fnp", n1 |-> n, n2 |-> m]) \/ Emit([k |-> "fna", n1 |-> n, n2 |-> m])
-               \/ Emit([k |-> "letp", n1 |-> n, n2 |-> m])
-               \/ Emit([k |-> "match", n1 |-> n, n2 |-> m]) \/ Emit([k |-> "block", n1 |-> n, n2 |-> m])
+       /\ IF Vocab = "blocks" THEN GenBlocks ELSE GenFull
 Next == Gen
 Spec == Init /\ [][Next]_vars
 
@@ -56,43 +70,64 @@ AllNames == Names \cup {Fresh}
 Unb == [tok |-> 0, slot |-> 0]
 Empty == [n \in AllNames |-> Unb]
 Bind(env, n, i, s) == [env EXCEPT ![n] = [tok |-> i, slot |-> s]]
-(* Res(toks, i, env) = [next |-> index after the subterm at i, m |-> set of [use, tok, slot]]          *)
-(* the annotation variable of `fna` is the use occurrence numbered -i (it has no token of its own)    *)
-RECURSIVE Res(_, _, _)
-Res(toks, i, env) ==
-  LET t == toks[i] IN
-  CASE t.k = "var" -> [next |-> i + 1, m |-> {[use |-> i, tok |-> env[t.n].tok, slot |-> env[t.n].slot]}]
-    [] t.k = "unit" -> [next |-> i + 1, m |-> {}]
-    [] t.k \in {"fn", "fix"} -> Res(toks, i + 1, Bind(env, t.n1, i, 1))
-    [] t.k = "fnp" -> Res(toks, i + 1, Bind(Bind(env, t.n1, i, 1), t.n2, i, 2))
-    [] t.k = "fna" -> LET r == Res(toks, i + 1, Bind(env, t.n1, i, 1)) IN
-                      [next |-> r.next, m |-> r.m \cup {[use |-> -i, tok |-> env[t.n2].tok, slot |-> env[t.n2].slot]}]
-    [] t.k \in {"do", "let"} -> LET r1 == Res(toks, i + 1, env)
-                                    r2 == Res(toks, r1.next, Bind(env, t.n1, i, 1)) IN
-                                [next |-> r2.next, m |-> r1.m \cup r2.m]
-    [] t.k = "letp" -> LET r1 == Res(toks, i + 1, env)
-                           r2 == Res(toks, r1.next, Bind(Bind(env, t.n1, i, 1), t.n2, i, 2)) IN
-                       [next |-> r2.next, m |-> r1.m \cup r2.m]
-    [] t.k = "pair" -> LET r1 == Res(toks, i + 1, env) r2 == Res(toks, r1.next, env) IN
-                       [next |-> r2.next, m |-> r1.m \cup r2.m]
-    [] t.k = "match" -> LET r0 == Res(toks, i + 1, env)
-                            r1 == Res(toks, r0.next, Bind(env, t.n1, i, 1))
-                            r2 == Res(toks, r1.next, Bind(env, t.n2, i, 2)) IN
-                        [next |-> r2.next, m |-> r0.m \cup r1.m \cup r2.m]
-    [] t.k = "block" -> LET envB == Bind(Bind(env, t.n1, i, 1), t.n2, i, 2)
-                            r1 == Res(toks, i + 1, envB) r2 == Res(toks, r1.next, envB) r3 == Res(toks, r2.next, envB) IN
-                        [next |-> r3.next, m |-> r1.m \cup r2.m \cup r3.m]
-    [] t.k = "blockp" -> Res(toks, i + 1, Bind(env, t.n1, i, 1))        \* begin param n that body end
-    [] t.k = "imp" -> Res(toks, i + 1, Empty)                           \* source boundary: empty environment
-
-ResOf(toks) == Res(toks, 1, Empty).m
-Dup(toks) == \E i \in 1..Len(toks) : toks[i].k = "block" /\ toks[i].n1 = toks[i].n2
-
 (* extent of the subterm starting at i *)
 RECURSIVE EndOf(_, _)
 EndOf(toks, i) == LET RECURSIVE Skip(_, _)
                       Skip(j, n) == IF n = 0 THEN j ELSE Skip(EndOf(toks, j), n - 1)
                   IN Skip(i + 1, Arity(toks[i]))
+
+(* the `that` contributions of the block opened at i: every lthat / pthat inside it that is not inside a nested     *)
+(* block or an import boundary (BlockCandidateCollector::term descends through every other former, bindees too)      *)
+Opaque == {"blk", "block", "blockp", "imp"}
+Candidates(toks, i) == {j \in (i + 1)..(EndOf(toks, i) - 1) :
+                          /\ toks[j].k \in {"lthat", "pthat"}
+                          /\ ~\E k \in (i + 1)..(j - 1) : toks[k].k \in Opaque /\ j < EndOf(toks, k)}
+NoBlockEnv == [ok |-> FALSE, env |-> Empty]
+(* Res(toks, i, env, benv) = [next |-> index after the subterm at i, m |-> set of [use, tok, slot]]      *)
+(* benv: the environment of the nearest enclosing block (where `that` bindees are resolved)            *)
+(* the annotation variable of `fna` is the use occurrence numbered -i (it has no token of its own)    *)
+RECURSIVE Res(_, _, _, _)
+Res(toks, i, env, benv) ==
+  LET t == toks[i] IN
+  CASE t.k = "var" -> [next |-> i + 1, m |-> {[use |-> i, tok |-> env[t.n].tok, slot |-> env[t.n].slot]}]
+    [] t.k = "unit" -> [next |-> i + 1, m |-> {}]
+    [] t.k \in {"fn", "fix"} -> Res(toks, i + 1, Bind(env, t.n1, i, 1), benv)
+    [] t.k = "fnp" -> Res(toks, i + 1, Bind(Bind(env, t.n1, i, 1), t.n2, i, 2), benv)
+    [] t.k = "fna" -> LET r == Res(toks, i + 1, Bind(env, t.n1, i, 1), benv) IN
+                      [next |-> r.next, m |-> r.m \cup {[use |-> -i, tok |-> env[t.n2].tok, slot |-> env[t.n2].slot]}]
+    [] t.k \in {"do", "let"} -> LET r1 == Res(toks, i + 1, env, benv)
+                                    r2 == Res(toks, r1.next, Bind(env, t.n1, i, 1), benv) IN
+                                [next |-> r2.next, m |-> r1.m \cup r2.m]
+    [] t.k = "letp" -> LET r1 == Res(toks, i + 1, env, benv)
+                           r2 == Res(toks, r1.next, Bind(Bind(env, t.n1, i, 1), t.n2, i, 2), benv) IN
+                       [next |-> r2.next, m |-> r1.m \cup r2.m]
+    [] t.k = "pair" -> LET r1 == Res(toks, i + 1, env, benv) r2 == Res(toks, r1.next, env, benv) IN
+                       [next |-> r2.next, m |-> r1.m \cup r2.m]
+    [] t.k = "match" -> LET r0 == Res(toks, i + 1, env, benv)
+                            r1 == Res(toks, r0.next, Bind(env, t.n1, i, 1), benv)
+                            r2 == Res(toks, r1.next, Bind(env, t.n2, i, 2), benv) IN
+                        [next |-> r2.next, m |-> r0.m \cup r1.m \cup r2.m]
+    [] t.k = "block" -> LET envB == Bind(Bind(env, t.n1, i, 1), t.n2, i, 2)
+                            b == [ok |-> TRUE, env |-> envB]
+                            r1 == Res(toks, i + 1, envB, b) r2 == Res(toks, r1.next, envB, b) r3 == Res(toks, r2.next, envB, b) IN
+                        [next |-> r3.next, m |-> r1.m \cup r2.m \cup r3.m]
+    [] t.k = "blockp" -> LET envB == Bind(env, t.n1, i, 1) IN Res(toks, i + 1, envB, [ok |-> TRUE, env |-> envB])
+    [] t.k = "blk" -> LET C == Candidates(toks, i)
+                          envB == [n \in AllNames |-> IF \E j \in C : toks[j].n1 = n
+                                                      THEN [tok |-> CHOOSE j \in C : toks[j].n1 = n, slot |-> 1] ELSE env[n]]
+                      IN Res(toks, i + 1, envB, [ok |-> TRUE, env |-> envB])
+    [] t.k = "lthat" -> LET r1 == Res(toks, i + 1, benv.env, benv)          \* the bindee moves to the block
+                            r2 == Res(toks, r1.next, env, benv) IN           \* the tail stays
+                        [next |-> r2.next, m |-> r1.m \cup r2.m]
+    [] t.k = "pthat" -> Res(toks, i + 1, env, benv)
+    [] t.k = "imp" -> Res(toks, i + 1, Empty, NoBlockEnv)                   \* source boundary: empty environment, no block
+
+ResOf(toks) == Res(toks, 1, Empty, NoBlockEnv).m
+Dup(toks) == \/ \E i \in 1..Len(toks) : toks[i].k = "block" /\ toks[i].n1 = toks[i].n2
+             \/ \E i \in 1..Len(toks) : toks[i].k = "blk" /\ \E j, k \in Candidates(toks, i) : j # k /\ toks[j].n1 = toks[k].n1
+(* a `that` with no block between it and the root / the nearest import boundary *)
+NoBlock(toks) == \E j \in 1..Len(toks) : /\ toks[j].k \in {"lthat", "pthat"}
+                                          /\ ~\E i \in 1..(j - 1) : toks[i].k = "blk" /\ j \in Candidates(toks, i)
 
 (* nothing inside an import boundary resolves to a binder outside it *)
 BoundaryHygiene == todo = 0 =>
@@ -101,7 +136,7 @@ BoundaryHygiene == todo = 0 =>
 
 (* renaming a binder and exactly the occurrences that resolve to it to a fresh name changes nothing *)
 Slots(t) == IF t.k \in {"fnp", "letp", "match", "block"} THEN {1, 2}
-            ELSE IF t.k \in {"fn", "fna", "fix", "do", "let", "blockp"} THEN {1} ELSE {}
+            ELSE IF t.k \in {"fn", "fna", "fix", "do", "let", "blockp", "lthat", "pthat"} THEN {1} ELSE {}
 RenameTok(t, i, b, s, R) ==
   IF i = b /\ s = 1 /\ "n1" \in DOMAIN t THEN [t EXCEPT !.n1 = Fresh]
   ELSE IF i = b /\ s = 2 /\ "n2" \in DOMAIN t /\ t.k # "fna" THEN [t EXCEPT !.n2 = Fresh]
@@ -114,10 +149,10 @@ Renamed(toks, b, s) ==
      IF toks[i].k = "var" /\ i \in uses THEN [t1 EXCEPT !.n = Fresh]
      ELSE IF toks[i].k = "fna" /\ (-i) \in uses THEN [t1 EXCEPT !.n2 = Fresh]
      ELSE t1]
-AlphaInvariance == (CheckAlpha /\ todo = 0 /\ ~Dup(out)) =>
+AlphaInvariance == (CheckAlpha /\ todo = 0 /\ ~Dup(out) /\ ~NoBlock(out)) =>
   \A b \in 1..Len(out) : \A s \in Slots(out[b]) :
      (* when both slots of a token carry the same name the second shadows the first; renaming the shadowed one is still harmless *)
      ResOf(Renamed(out, b, s)) = ResOf(out)
 
-Report == todo = 0 => PrintT(<<"REPLAY", ToJson([prog |-> out, dup |-> Dup(out), res |-> ResOf(out)])>>)
+Report == todo = 0 => PrintT(<<"REPLAY", ToJson([prog |-> out, dup |-> Dup(out), noblock |-> NoBlock(out), res |-> ResOf(out)])>>)
 =============================================================================
